@@ -1,17 +1,24 @@
-"""C07 - XML decoding is total and safe; encode then decode preserves the tree (spec/XmlText.tla)."""
+"""C07 - XML decoding is total and safe; encode then decode preserves the tree (spec/XmlText.tla); the DOM editing
+and query API on top of it (spec/XmlDom.tla)."""
+import concurrent.futures as cf
 import json
 import os
 import shutil
 import subprocess
+import time
 import vlib
 
 META = {
-    "engine": "XmlText.tla,XmlTextSM.tla,Trace_XmlText.tla",
+    "engine": "XmlText.tla,XmlTextSM.tla,Trace_XmlText.tla,XmlDom.tla,Trace_XmlDom.tla",
     "technique": "TLC model-checks XmlText.tla (document generator vs. strict recursive-descent recognizer vs. serializer, "
                  "all generated documents / prefixes / surplus and mismatched end tags) and emits one case per transition; "
                  "the cases are replayed on Xml::decode / Xml::encode under ASan+LSan with the normalized tree compared; "
                  "recorded encode/decode runs of random trees, mutated documents and random bytes are validated by TLC "
-                 "with the recognizer as the independent parser",
+                 "with the recognizer as the independent parser. Growth: XmlDom.tla models the editing / query API of asl::Xml "
+                 "as a state machine over a heap of shared nodes behind reference-counted handles (one action per public "
+                 "call); TLC enumerates all histories within the bounds and emits one case per transition (history + every "
+                 "live node + the results of all queries on every handle), replayed on real Xml handles under ASan/LSan; "
+                 "recorded random edit scripts are validated by TLC against the same actions (Trace_XmlDom.tla)",
     "design_ref": "DESIGN.md section 6, C07",
     "level_text": "TLC explores every state of the XmlText.tla document generator within the configured bounds (prolog, "
                   "DOCTYPE with nested <>, comments, PIs, both quote styles, white space in tags, named/decimal/hex "
@@ -23,7 +30,23 @@ META = {
                   "all their byte prefixes and all faulty documents must decode to null or a tree with consistent parent "
                   "links, and the generated trees must survive Xml::encode (compact; indented when text is a sole child) "
                   "followed by Xml::decode. Recorded runs on random trees up to depth 12 and on mutated / random inputs "
-                  "are judged by TLC evaluating Recognize/Normalize on the logged bytes and node tables.",
+                  "are judged by TLC evaluating Recognize/Normalize on the logged bytes and node tables. "
+                  "DOM API (XmlDom.tla, INSTANCE of XmlText for trees / Normalize / Enc / Recognize): 25 actions - constructors "
+                  "(tag; tag+value; tag+attributes; tag+children), handle copy / assignment (also x = x, x = x.child(i)) / "
+                  "destruction, child / parent / operator()(tag, i) / findOne, operator<<(Xml) / insert / operator<<(String) / "
+                  "remove(int) / remove(Xml) / clear / put(value) / put(name, value), setAttr / removeAttr / setTag, clone, and "
+                  "decode(encode()) - over a DAG of nodes shared by reference (a subtree appended twice or under two parents). "
+                  "Invariants: TypeOK, NoGarbage (a node lives exactly while a handle reaches it), Acyclic, AmbSound, "
+                  "ParentInverse (parent() is the inverse of children(): the containing element, null for roots; unconstrained "
+                  "only for a node attached while already a child), EditRoundTrip (after any history the serialization of what a "
+                  "handle denotes is recognized as that tree up to Normalize, indented form when text is a sole child); action "
+                  "properties CloneSeparate (clone / reparse share no node with anything else and leave the source untouched), "
+                  "EditLocal (an edit changes only the node it goes through), NavigationPure. Every transition is one replay "
+                  "case: node identities (what is shared / separate), kind, tag, text, attributes, child order and parent() of "
+                  "every live node, and on every handle text(), value<int>(), count / children(tag) / operator()(tag, i), "
+                  "find / findOne / traverse, has / operator[], decode(encode()) compact and indented against TLC's values. "
+                  "Recorded scripts (8 handles, trees up to 70 nodes, arbitrary bytes in text and values) are validated call by "
+                  "call; their check events are accepted iff the implementation's node graph is isomorphic to the specification's heap.",
     "level_note": "Bounded: exhaustive only within the constants of spec/MC_XmlText_*.cfg; beyond them seeded random "
                   "sampling (V). Totality and memory safety are observed (ASan/LSan, 20 s per case), not decided by the model. "
                   "Exact trees are demanded only for documents of the specification's XML subset (no CDATA, no white space "
@@ -31,12 +54,21 @@ META = {
                   "other byte string only 'null or a tree with consistent parent links' is required, as the property says. "
                   "parent() of the returned root is not inspected. TLC's -coverage cannot be used on this module (its cost "
                   "model unfolds the recursive recognizer until out of memory); non-vacuity is checked from the action "
-                  "label carried by every emitted case.",
+                  "label carried by every emitted case. DOM part: bounded by spec/MC_XmlDom_*.cfg (3 handles, 6-7 nodes, histories "
+                  "of 4-6 calls; two configurations: structure / content); not modelled: cycles (a << a), indices out of range, "
+                  "insert at numChildren() (ignored by the code, undocumented), text() when the first child is an element and "
+                  "parent() of a node attached twice (both left unconstrained: null or a container), the order of find() "
+                  "(compared as a bag), value<T> other than int, attribute maps / child arrays shared with the caller through the "
+                  "Map / Array constructors or children() / attribs() references (C01/C02 container semantics), Xml::read / write.",
 }
 
 ACTIONS = {"XmlDecl", "Doctype", "TopMisc", "Open", "Attr", "CloseStart", "SelfClose", "Text", "InMisc", "End",
            "ExtraEnd", "MismatchEnd", "BadTail"}
 HSRC = ["c07_record.cpp"]
+DOM_OPS = {"newElem", "newText", "newVal", "newAttr", "newKids", "copy", "assign", "drop", "child", "parent", "get", "findOne",
+           "append", "insert", "appendText", "removeAt", "removeNode", "clear", "putText", "putNamed", "setAttr", "removeAttr",
+           "setTag", "clone", "reparse"}
+DOM_REC = ["c07_dom_record.cpp"]
 
 
 def _actions_seen(path):
@@ -57,8 +89,81 @@ def _sample(path, needle, limit=900):
     return None
 
 
+def _dom_ops_seen(path):
+    """last call of every emitted history (the action that produced the transition)"""
+    seen = set()
+    with open(path) as f:
+        for ln in f:
+            i = ln.find('],"nodes":')
+            j = ln.rfind('"op":"', 0, i)
+            if j >= 0:
+                seen.add(ln[j + 6:ln.index('"', j + 6)])
+    return seen
+
+
+def _dom(ctx, lib):
+    """growth: the DOM editing / query API (XmlDom.tla).  R: two exhaustive configurations (structure: sharing, moving,
+    removing, handles, parent links; content: text, attributes, names, tag queries, codec), run side by side under two
+    spellings of the module name (vlib's TLC scratch directories); V: recorded random edit scripts."""
+    rep = vlib.build_harness(lib, "c07_dom_replay", ["c07_dom_replay.cpp"])
+    rec = vlib.build_harness(lib, "c07_dom_record", DOM_REC)
+    seen = set()
+    wk = max(2, vlib.NCPU // 3)
+
+    def r_side(spec, cfg):
+        cases = os.path.join(ctx.tmp, cfg + ".cases")
+        ctx.model(spec, cfg, emit_to=cases, timeout=ctx.pick(600, 3600), workers=wk, xmx="3g", xss="64m", must_cover=False)
+        ops = _dom_ops_seen(cases)
+        if not ctx.samples or '"nodes"' not in " ".join(ctx.samples):
+            ctx.add_samples([x for x in (_sample(cases, '"op":"append"', 1500),) if x])
+        ctx.replay(rep, cases, label="R/" + cfg, timeout=ctx.pick(900, 5400), jobs=max(2, vlib.NCPU // 2), args=("--batch", "300"))
+        os.unlink(cases)
+        return ops
+
+    def v_side():
+        files = ctx.record(rec, ctx.pick(6, 24), ctx.pick(130, 600), "V/XmlDom")
+        ctx.validate_traces("Trace_XmlDom", "Trace_XmlDom", files, label="V/XmlDom", timeout=ctx.pick(600, 3000), xss="1g", xmx="2g",
+                            parallel=max(2, vlib.NCPU // 3))
+
+    with cf.ThreadPoolExecutor(3) as ex:
+        f1 = ex.submit(r_side, "XmlDom", "MC_XmlDom_" + ctx.tier)
+        time.sleep(0.7)
+        f2 = ex.submit(r_side, "XmlDom.tla", "MC_XmlDom_%s2" % ctx.tier)
+        time.sleep(0.7)
+        f3 = ex.submit(v_side)
+        seen = f1.result() | f2.result()
+        f3.result()
+    missing = DOM_OPS - seen
+    if missing:
+        raise vlib.HarnessError("XmlDom: vacuous run, actions never taken: %s" % sorted(missing))
+
+
 def run(ctx):
     lib = vlib.build_lib("asan")
+    with cf.ThreadPoolExecutor(2) as ex:
+        fa = ex.submit(_xmltext, ctx, lib)
+        time.sleep(1.5)
+        fb = ex.submit(_dom, ctx, lib)
+        fa.result()
+        fb.result()
+    ctx.exhaustive = True
+    ctx.rule = ("one case per transition of the XmlText generator (document / prefix / faulty document, with the expected "
+                "normalized tree for documents) and of the XmlDom state graph (history of public calls + every live node + "
+                "the results of all queries); non-trivial = document whose tree has a child or an attribute, non-document "
+                "text of >= 4 bytes, history of >= 2 calls; distinct = distinct case lines (hash)")
+    ctx.assumptions += [
+        "exhaustive within the constants of spec/MC_XmlText_%s*.cfg and spec/MC_XmlDom_%s*.cfg; beyond them only the recorded random executions apply" % (ctx.tier, ctx.tier),
+        "memory errors, leaks and non-termination are observed by ASan/LSan and a 20 s limit per case on the replayed and recorded executions",
+        "inputs are NUL-free byte strings (Xml::decode takes a C string); the root's own parent() is never called on decoded documents "
+        "(the DOM part calls parent() on every live node, roots included)",
+        "binding demonstrated on mutated copies of the library (missing parent link, wrong reference base, unescaped quote in "
+        "attribute values, newline before sole text in indented output; DOM: clone sharing its text nodes, insert off by one, "
+        "remove(Xml) removing the last occurrence, count() counting text nodes) and on corrupted trace fields: all rejected",
+        "node identity in the DOM part is the API's handle comparison (operator==); handles are C++ objects created and destroyed by the harness",
+    ]
+
+
+def _xmltext(ctx, lib):
     rep = vlib.build_harness(lib, "c07_replay", ["c07_replay.cpp"])
     rec = vlib.build_harness(lib, "c07_record", HSRC)
     # R: two exhaustive configurations: lexical variety on small trees, and structure (depth, mixed content) with one
@@ -80,22 +185,11 @@ def run(ctx):
     missing = ACTIONS - seen
     if missing:
         raise vlib.HarnessError("XmlText: vacuous run, generator actions never taken: %s" % sorted(missing))
-    ctx.exhaustive = True
-    ctx.rule = ("one case per transition of the XmlText generator (document / prefix / faulty document, with the expected "
-                "normalized tree for documents); non-trivial = document whose tree has a child or an attribute, or "
-                "non-document text of >= 4 bytes; distinct = distinct case lines (hash)")
     # V: random trees through encode/decode, mutated documents and random bytes through decode; TLC judges every event
     files = ctx.record(rec, ctx.pick(8, 32), ctx.pick(250, 800), "V/XmlText")
     if files:
         ctx.add_samples([x for x in (_sample(files[0], '"e":"rt"', 1500),) if x])
     ctx.validate_traces("Trace_XmlText", "Trace_XmlText", files, label="V/XmlText", timeout=ctx.pick(600, 3000), xss="1g", xmx="4g")
-    ctx.assumptions += [
-        "exhaustive within the constants of spec/MC_XmlText_%s*.cfg; beyond them only the recorded random executions apply" % ctx.tier,
-        "memory errors, leaks and non-termination are observed by ASan/LSan and a 20 s limit per case on the replayed and recorded executions",
-        "inputs are NUL-free byte strings (Xml::decode takes a C string); the root's own parent() is never called",
-        "binding demonstrated on mutated copies of the library (missing parent link, wrong reference base, unescaped quote in "
-        "attribute values, newline before sole text in indented output) and on a corrupted trace field: all rejected",
-    ]
 
 
 def _replay_trace(path, lib):
@@ -104,9 +198,11 @@ def _replay_trace(path, lib):
     os.makedirs(tmp, exist_ok=True)
     try:
         trace = path
+        dom = "XmlDom" in os.path.basename(path)
         if not path.endswith(".ndjson"):
             info = json.load(open(path))
-            exe = vlib.build_harness(lib, "c07_record", HSRC)
+            dom = "dom" in str(info.get("recorder", "")) or dom
+            exe = vlib.build_harness(lib, "c07_dom_record", DOM_REC) if dom else vlib.build_harness(lib, "c07_record", HSRC)
             trace = os.path.join(tmp, "t.ndjson")
             cmd = [exe, "--seed", str(info["seed"]), "--events", str(info["events"]), "--out", trace] + list(info.get("args", []))
             if info.get("avoid"):
@@ -115,14 +211,15 @@ def _replay_trace(path, lib):
             if p.returncode != 0:
                 print("recorder failed again with exit %d (seed %s): violation reproduced" % (p.returncode, info["seed"]))
                 return 1
-        r = vlib.tlc("Trace_XmlText", "Trace_XmlText", workers=1, timeout=1800, env={"TRACE": trace}, xss="1g", xmx="4g")
+        tspec = "Trace_XmlDom" if dom else "Trace_XmlText"
+        r = vlib.tlc(tspec, tspec, workers=1, timeout=1800, env={"TRACE": trace}, xss="1g", xmx="4g")
         if r.rc == 0:
-            print("trace accepted by Trace_XmlText")
+            print("trace accepted by " + tspec)
             return 0
         if r.violated() is None:
             print(r.tail(40))
             return 2
-        print("trace rejected by Trace_XmlText near event %d" % r.depth)
+        print("trace rejected by %s near event %d" % (tspec, r.depth))
         return 1
     finally:
         shutil.rmtree(tmp, ignore_errors=True)
@@ -132,6 +229,11 @@ def replay(path):
     lib = vlib.build_lib("asan")
     if os.path.basename(path).startswith("rec-") or path.endswith(".ndjson"):
         return _replay_trace(path, lib)
-    rep = vlib.build_harness(lib, "c07_replay", ["c07_replay.cpp"])
+    with open(path) as f:
+        head = f.read(400)
+    if '"hist"' in head:        # a history of XmlDom.tla
+        rep = vlib.build_harness(lib, "c07_dom_replay", ["c07_dom_replay.cpp"])
+    else:
+        rep = vlib.build_harness(lib, "c07_replay", ["c07_replay.cpp"])
     r = subprocess.run([rep, "--single", path], env=vlib.run_env())
     return 1 if r.returncode == 1 else (0 if r.returncode == 0 else 2)
